@@ -244,9 +244,7 @@ def neg_rules(repo, rep, ev):
     r = ev.call_function(neg, {neg.params[0].name: T})
     wn = where(neg, neg.node)
     base = 'R-WIRE::geodepy/constants.py::Transformation.__neg__::'
-    if not isinstance(r, Obj) or r.cls is not cls:
-        rep.undecided('R-WIRE', base + 'shape', wn, '__neg__ does not evaluate to a Transformation')
-    else:
+    if transformation_shape(repo, rep, r, cls, 'R-WIRE', base + 'shape', wn, '__neg__'):
         for p in PARAMS + RATES:
             got = r.fields.get(p)
             if isinstance(got, Rat) and type_dependent(got, T.fields[p]):
@@ -278,8 +276,7 @@ def add_rules(repo, rep, ev):
     while isinstance(r, IteV) and guard < 4:
         guard += 1
         r = r.a if isinstance(r.a, Obj) else r.b
-    if not isinstance(r, Obj) or r.cls is not cls:
-        rep.undecided('R-WIRE', base + 'shape', wa, '__add__ does not evaluate to a Transformation for a date argument')
+    if not transformation_shape(repo, rep, r, cls, 'R-WIRE', base + 'shape', wa, '__add__ (date argument)'):
         return
     dt = (other - T.fields['ref_epoch']) / C(F(36525, 100))
     for p in PARAMS:
@@ -292,13 +289,61 @@ def add_rules(repo, rep, ev):
     check_equal(rep, 'R-WIRE', base + 'to_datum', wa, r.fields.get('to_datum'), T.fields['to_datum'],
                 're-referencing a set to another epoch keeps its target label')
     check_equal(rep, 'R-WIRE', base + 'ref_epoch', wa, r.fields.get('ref_epoch'), other, 'the new reference epoch is the argument')
-    nround = [d for fn, d, v, line in ev.roundings if fn == 'Transformation.__add__']
+    # every rounding met while __add__ ran (the list was emptied before the call): its own and those of helpers it calls
+    nround = [d for fn, d, v, line in ev.roundings]
     key = 'R-ROUND::geodepy/constants.py::Transformation.__add__::params'
     if len(nround) >= 7 and all(d is not None and d >= 8 for d in nround):
         rep.holds('R-ROUND', key, wa, 'propagated parameters rounded to %s decimals' % sorted(set(nround)))
+    elif nround and any(d is None for d in nround):
+        rep.violated('R-ROUND', key, wa, 'propagated parameters are cut to a number of SIGNIFICANT figures (a %g-style format or a rounding without fixed decimals): the decimals kept '
+                     'shrink as the value grows - a translation of 100 m keeps 5 decimals with eight figures (4.8e-6 m against the 2e-6 m of the property)',
+                     expected='>= 8 decimals whatever the magnitude', actual='significant-figure rounding')
     elif nround:
         rep.violated('R-ROUND', key, wa, 'propagated parameters are rounded to %s decimals: coarser than 1e-8' % sorted(set(nround)),
                      expected='>= 8 decimals', actual=str(sorted(set(nround))))
+
+
+def _derives_from(c, cls):
+    seen = 0
+    while c is not None and seen < 8:
+        if c is cls:
+            return True
+        nxt = None
+        for b in c.bases:
+            if isinstance(b, ast.Name) and b.id in c.module.classes:
+                nxt = c.module.classes[b.id]
+        c, seen = nxt, seen + 1
+    return False
+
+
+def exact_type_guards(repo, clsname='Transformation'):
+    """raising tests of geodepy.transform that ask for the EXACT class of a set: `type(trans) != Transformation`"""
+    out = []
+    m = repo.module('geodepy.transform')
+    for f in m.all_functions():
+        for n in ast.walk(f.node):
+            if isinstance(n, ast.Compare) and len(n.ops) == 1 and isinstance(n.ops[0], (ast.NotEq, ast.IsNot, ast.Eq, ast.Is)) \
+                    and isinstance(n.left, ast.Call) and getattr(n.left.func, 'id', '') == 'type' and isinstance(n.comparators[0], ast.Name) and n.comparators[0].id == clsname:
+                out.append((f, n))
+    return out
+
+
+def transformation_shape(repo, rep, r, cls, rule, key, w, what):
+    """True when r is a Transformation the rest of the library accepts.  An object of a SUBCLASS is one only while no function tests the exact
+    class: conform7 / conform14 do (`type(trans) != Transformation`) - they refuse such a set with ValueError."""
+    if isinstance(r, Obj) and r.cls is cls:
+        return True
+    if isinstance(r, Obj) and _derives_from(r.cls, cls):
+        guards = exact_type_guards(repo, cls.name)
+        if guards:
+            g_f, g_n = guards[0]
+            rep.violated(rule, key, w, '%s returns an object of class %s, a subclass of %s - and %s tests `%s` (line %d): every set built this way is refused with ValueError '
+                         'by the transformation functions, while its negation or its epoch-propagated copy (built by %s itself) is accepted'
+                         % (what, r.cls.name, cls.name, g_f.qualname, stmt_text(g_n), g_n.lineno, cls.name), expected='an object of class %s itself' % cls.name, actual=r.cls.name)
+            return False
+        return True
+    rep.undecided(rule, key, w, '%s does not evaluate to a Transformation' % what)
+    return False
 
 
 def iers_rules(repo, rep, ev):
@@ -310,8 +355,7 @@ def iers_rules(repo, rep, ev):
     r = ev.call_function(f, args)
     wi = where(f, f.node)
     base = 'R-FORMULA::geodepy/constants.py::iers2trans::'
-    if not isinstance(r, Obj) or r.cls is not cls:
-        rep.undecided('R-FORMULA', base + 'shape', wi, 'iers2trans does not evaluate to a Transformation')
+    if not transformation_shape(repo, rep, r, cls, 'R-FORMULA', base + 'shape', wi, 'iers2trans'):
         return
     thousand = C(1000)
     for p in PARAMS + RATES:
